@@ -60,7 +60,21 @@ def coverage(db, ctx):
     c = [c for c, _ in walk(po.hir) if c.get("k") == "MethodCall" and c.get("method") == "provide_oov"]
     ok = bool(c) and [render(a) for a in c[0]["args"]][:2] == ["self.input", "char_offset"]
     ins = any(is_call(x) and path_ends(callee(x), "Lattice::insert") for x, _ in walk(po.hir))
-    rng = any("start_size" in render(fl[0]) and "num_provided" in render(fl[0]) for nn, fl, pp in _loops(po))
+    # the loop visits [len before the call, len before the call + number the provider reports)
+    from ..inline import range_bounds
+    from ..db import deref_all
+    from ..origins import unwrap_try
+    rng = False
+    for nn, fl, pp in _loops(po):
+        rb = range_bounds(fl[0])
+        rs = deref_all(fl[0])
+        if rb and rb[0] == "self.node_buffer.len()" and isinstance(rs, dict) and rs.get("k") == "Struct":
+            end = {x["name"]: x["e"] for x in rs["fields"] if "e" in x}.get("end")
+            e_ = deref_all(end) if end is not None else {}
+            if e_.get("k") == "Binary" and e_.get("op") == "Add":
+                sides = [deref_all(unwrap_try(deref_all(s_))) for s_ in (e_["l"], e_["r"])]
+                rng = any(s_.get("k") == "MethodCall" and s_.get("method") == "provide_oov" for s_ in sides) and \
+                    any(s_.get("k") == "MethodCall" and s_.get("method") == "len" for s_ in sides)
     ctx.ob("provide_oovs|inserts-all-provided", ok and ins and rng, "provide_oov(self.input, char_offset, ..) then every node in start_size..start_size+num_provided is inserted: %s/%s/%s" % (ok, ins, rng), fn=po)
 
 
@@ -104,7 +118,7 @@ def node_shape(db, ctx):
                            "%s: Node::new(begin=`%s` traced to parameters %s, .., word id `%s`): begin is the given offset=%s, OOV id with configured POS=%s"
                            % (f.short(), render(a[0]), sorted(n for n in names if n), render(a[5]), ok_begin, ok_wid and ok_pos), fn=f, site=c.get("sp"))
     ctx.floor(3)
-    r = db.one("resolve_best_path", "StatefulTokenizer")
+    r = db.view(db.one("resolve_best_path", "StatefulTokenizer"))
     ok = False
     from ..inline import nf
     import re
